@@ -25,8 +25,65 @@ import (
 
 var wireCounter int
 
+// wireCfg builds the fan configuration for a control-algorithm spelling
+func wireCfg(id, cid, ca string) configuration.FanConfig {
+	cfg := configuration.FanConfig{ID: id, Curve: cid, File: &configuration.FileFanConfig{Path: "/nonexistent-verif/pwm-" + id}}
+	parts := strings.Split(ca, ":")
+	switch parts[0] {
+	case "direct":
+		cfg.ControlAlgorithm = &configuration.ControlAlgorithmConfig{Direct: &configuration.DirectControlAlgorithmConfig{}}
+	case "pid":
+		cfg.ControlAlgorithm = &configuration.ControlAlgorithmConfig{Pid: &configuration.PidControlAlgorithmConfig{
+			P: parseF(parts[1]), I: parseF(parts[2]), D: parseF(parts[3])}}
+	}
+	return cfg
+}
+
+// wire.group cas=<ca>,<ca>,...: SEVERAL fans wired by one call of the real initializeFanControllers: every controller
+// has to get control-loop state of its own (a PID loop carries an integral, the previous error and a timestamp)
+//
+//	-> ok n=<controllers> shared=<number of pairs of controllers holding the SAME loop object>
+func wireGroup(a kv) string {
+	m := map[configuration.FanConfig]fans.Fan{}
+	for i, ca := range strings.Split(a.str("cas", "none,none"), ",") {
+		wireCounter++
+		id := fmt.Sprintf("wirefan%d_%d", wireCounter, i)
+		cid := fmt.Sprintf("wirecurve%d_%d", wireCounter, i)
+		cfg := wireCfg(id, cid, ca)
+		fan, err := fans.NewFan(cfg)
+		if err != nil {
+			return "err"
+		}
+		curves.RegisterSpeedCurve(&scriptCurve{id: cid})
+		m[cfg] = fan
+	}
+	savedReg := prometheus.DefaultRegisterer
+	prometheus.DefaultRegisterer = prometheus.NewRegistry()
+	defer func() { prometheus.DefaultRegisterer = savedReg }()
+	ctls, err := internal.VerifInitializeFanControllers(nil, m)
+	if err != nil {
+		return "err"
+	}
+	var loops []interface{ Cycle(int, int) int }
+	for _, c := range ctls {
+		loops = append(loops, c.(*controller.VerifController).VerifControlLoop())
+	}
+	shared := 0
+	for i := range loops {
+		for j := i + 1; j < len(loops); j++ {
+			if loops[i] != nil && loops[i] == loops[j] {
+				shared++
+			}
+		}
+	}
+	return fmt.Sprintf("ok n=%d shared=%d", len(loops), shared)
+}
+
 func init() {
 	register("wire", func(op string, a kv) string {
+		if op == "wire.group" {
+			return wireGroup(a)
+		}
 		if op != "wire.loop" {
 			return "bad-op"
 		}
